@@ -624,7 +624,7 @@ func (em *emitter) emitAssignmentNode(node *ast.Assignment) {
 				panic(internalError("unexpected operator %s", v.Operator()))
 			}
 			typ := em.typ(v.Expr)
-			reg := operand(v.Expr, typ)
+			reg := em.directRegister(operand(v.Expr, typ), typ)
 			addresses[i] = em.addressPtrIndirect(reg, typ, pos, node.Type)
 		default:
 			panic(internalError("unexpected"))
